@@ -240,7 +240,9 @@ class Simulationarchive(Structure):
             if (sim.integrator=="mercurius" and sim.ri_mercurius.safe_mode == 1) or (sim.integrator=="whfast" and sim.ri_whfast.safe_mode == 1) or (sim.integrator=="saba" and sim.ri_saba.safe_mode == 1):
                 keep_unsynchronized = 0
             # SABA shares WHFast's initialization, which rejects keep_unsynchronized=1 while ri_whfast.safe_mode is on
-            sim.ri_whfast.keep_unsynchronized = keep_unsynchronized if sim.ri_whfast.safe_mode == 0 else 0
+            if not (sim.integrator=="whfast" and sim.N_var_config > 0):
+                # With variational particles WHFast synchronizes in every step. Keep the setting the simulation was saved with.
+                sim.ri_whfast.keep_unsynchronized = keep_unsynchronized if sim.ri_whfast.safe_mode == 0 else 0
             sim.ri_saba.keep_unsynchronized = keep_unsynchronized
             sim.synchronize()
             return sim
@@ -250,7 +252,9 @@ class Simulationarchive(Structure):
             if (sim.integrator=="mercurius" and sim.ri_mercurius.safe_mode == 1) or (sim.integrator=="whfast" and sim.ri_whfast.safe_mode == 1) or (sim.integrator=="saba" and sim.ri_saba.safe_mode == 1):
                 keep_unsynchronized = 0
             # SABA shares WHFast's initialization, which rejects keep_unsynchronized=1 while ri_whfast.safe_mode is on
-            sim.ri_whfast.keep_unsynchronized = keep_unsynchronized if sim.ri_whfast.safe_mode == 0 else 0
+            if not (sim.integrator=="whfast" and sim.N_var_config > 0):
+                # With variational particles WHFast synchronizes in every step. Keep the setting the simulation was saved with.
+                sim.ri_whfast.keep_unsynchronized = keep_unsynchronized if sim.ri_whfast.safe_mode == 0 else 0
             sim.ri_saba.keep_unsynchronized = keep_unsynchronized
             exact_finish_time = 1 if mode=='exact' else 0
             sim.integrate(t,exact_finish_time=exact_finish_time)
